@@ -19,7 +19,8 @@ delegate to push/pop path components and to remember/restore paths of queued sub
 `Model/C44.lean` also transcribes that call sequence (`diffEv`) and the `Recorder` (`runEvs`), and
 `recorder_replays_walk` / `recorder_paths_correct` prove that the `Recorder`, fed with those calls,
 records exactly the walk's records (so every path is the one the specification names), never hits
-its `expect` and ends with an empty `path_deque`.
+its `expect` and ends with an empty `path_deque`; `recorder_bytes_replays_walk` carries this over to
+the `Recorder`'s byte-string path (`/`-joined, `pop_element` cuts at the last `/`) for slash-free names.
 -/
 namespace GixModel.Props.C44
 open GixModel GixModel.Tree GixModel.C44
@@ -123,6 +124,18 @@ theorem recorder_paths_correct (S : Assoc Bytes (List Entry)) (a b : List Entry)
   obtain ⟨rs, g1, g2, g3⟩ := diffEv_run S depth a b out h1
   exact ⟨rs, g1, g3, g2 ▸ h2, g2 ▸ h3⟩
 
+/-- The same on the `Recorder`'s real representation — `path: BString`, components joined by `/`
+(`push_element`), `pop_element` cutting at the LAST `/` — provided no entry name contains a `/`
+(in every tree of the store and in the two root lists; a name with a `/` would make `pop_element`
+cut inside it, and git rejects such trees): fed with the
+walk's delegate calls it records the walk's records with their paths `/`-joined. -/
+theorem recorder_bytes_replays_walk (S : Assoc Bytes (List Entry)) (depth : Nat) (l r : List Entry)
+    (out : List Change) (h : diff S depth l r = .ok out) (hS : StoreSF S) (hl : NamesSF l)
+    (hr : NamesSF r) :
+    ∃ rb, runEvsB ⟨[], [], []⟩ (diffEv S depth l r) = some rb ∧ rb.recs = out.map Change.toB ∧
+      rb.deque = [] :=
+  diffEv_runB hS depth hl hr out h
+
 -- non-vacuity: `d/x` changes and `e` (a file) becomes a directory: the 19 calls are
 -- pushBack d, visit(mod), pop, push e, visit(del), pop, push e, visit(add), pop, pushBack e, pop,
 -- popFront, push x, visit(mod), pop, popFront, push y, visit(add), pop
@@ -137,6 +150,8 @@ example :
     ((runEvs ⟨[], [], []⟩ (diffEv S 3 a b)).map (fun rs => rs.recs.map (fun c => match c with
       | .add p .. => p | .del p .. => p | .mod p .. => p))) =
       some [[[100]], [[101]], [[101]], [[100], [120]], [[101], [121]]] ∧
+    ((runEvsB ⟨[], [], []⟩ (diffEv S 3 a b)).map (fun rb => rb.recs.map (·.2))) =
+      some [[100], [101], [101], [100, 47, 120], [101, 47, 121]] ∧
     (diffEv S 3 a b).length = 19 := by decide +kernel
 
 /-- git's rule for type changes, as the specification states it: a file (symlink, submodule)
